@@ -634,7 +634,7 @@ def main():
         text = translate_repro.render(ex)
         for attempt in range(4):
             run.write_generated(translate_repro.OUT, text)
-            run.check_proofs("Properties/C03.v", ["Proofs/ReproProofs.v"], generated=["Generated/ReproGen.v"])
+            run.check_proofs("Properties/C03.v", ["Proofs/ReproProofs.v", "Proofs/ReproFlowProofs.v"], generated=["Generated/ReproGen.v"])
             if open(os.path.join(vlib.COQ, translate_repro.OUT)).read() == text:
                 break
             run.log("Generated/ReproGen.v was replaced by a concurrent run; rebuilding (attempt %d)" % (attempt + 2))
